@@ -58,6 +58,39 @@ CHECKS = {
              "rational-arithmetic definitions of the diagnostics; all MAP tables with <=3/4 rows over a 9-letter alphabet.",
         note="Trusts astropy Time arithmetic; an observation exactly whole cycles after the reference may fall in the first or last bin.",
     ),
+    "C02": dict(
+        engine=E2, category="model_checking", design="§4 C02",
+        technique="exhaustive enumeration of libraries x acceptance-relevant uniform answers x options, executed on the real rejection_sample under a scripted Generator and stub kernel, compared with the acceptance-rule reference",
+        text="All libraries up to N=4/5 over a 4-letter likelihood alphabet, every acceptance-relevant uniform answer per row (adjacent doubles "
+             "around the ratio), all truncation options, both file paths, scripted permutations, batching and modelled pool schedules are executed "
+             "on the real sampler; returned rows, their order, the generator calls and pass-through of the nonlinear columns are compared with "
+             "the reference rule. Exhaustive within the alphabets; control flow only (kernel stubbed).",
+        note="Stub kernel contract is established on the real kernel by C01/C05; numpy's uniform is trusted.",
+    ),
+    "C06": dict(
+        engine=E2, category="model_checking", design="§4 C06",
+        technique="exhaustive enumeration of every acceptance subset x option combination on the real samplers with identifiable ln_prior/ln_likelihood tags per row",
+        text="For N<=4, every position of the maximum and every acceptance subset, all option combinations of rejection_sample (paths, batching, "
+             "every permutation for N<=3, truncations, n_linear, return_all_logprobs) and the iterative sampler are executed; each returned row's "
+             "ln_prior and ln_likelihood must be the tagged values of that row's library id, as plain floats.",
+        note="Stub kernel; identity encoded in P. Iterative ValueError/RuntimeError outcomes are left to C14.",
+    ),
+    "C12": dict(
+        engine=E3 + " + " + E1, category="model_checking", design="§4 C12",
+        technique="explicit-state BFS over write/overwrite/append/read histories on real HDF5 files with a reference file model (state = model content, asserted equal to the file in every state), plus exhaustive enumeration of batch-read selectors",
+        text="Breadth-first search to depth 3/4 over 34 operations per state (11 tables x 3 write modes + read) on a real file per state; every "
+             "transition checks accept/refuse verdict, byte-identity of the file after a refusal and the full content after acceptance. Batch reads: "
+             "every (start, stop, step), every index array of length<=3, scripted random reads x column subsets x unit requests.",
+        note="None-vs-value t_ref appends are 'either'. Trusts h5py/PyTables/astropy I/O.",
+    ),
+    "C14": dict(
+        engine=E2, category="model_checking", design="§4 C14",
+        technique="stateless DFS (prefix replay, deviation-bounded) over per-(iteration, sample) uniform answers of the real iterative sampler for every configuration, with a trace monitor",
+        text="For every configuration (library, likelihood profile incl. NaN/-inf, request, batch-size options, budget, n_linear, path, permutation, "
+             "pool) all environment answer sequences up to the deviation bound (all of them for N<=2) are executed on the real code; the monitor "
+             "checks no double evaluation, budget, result type, acceptance under the last uniform vector, truncation and raise-on-failure.",
+        note="Batch sizes are not predicted. 'Library too small' is demanded only when the first batch exceeds the budget.",
+    ),
 }
 NOT_YET = {}
 
